@@ -36,6 +36,10 @@ SPEC = {
         "you/downloader/triesync.go:trieSync.processNodeData", "you/downloader/triesync.go:trieSync.fillTasks",
         "you/downloader/triesync.go:trieSync.process", "you/downloader/triesync.go:trieSync.commit",
         "you/downloader/triesync.go:trieSync.loop", "you/downloader/triesync.go:Downloader.runTrieSync",
+        "you/downloader/triesync.go:Downloader.launchTrieSync", "you/downloader/triesync.go:Downloader.trieFetcher",
+        "you/downloader/triesync.go:trieSync.run", "you/downloader/triesync.go:trieSync.Wait",
+        "you/downloader/triesync.go:Downloader.FetchVldTrie", "you/downloader/triesync.go:Downloader.fetchStakingTrie",
+        "you/downloader/triesync.go:Downloader.syncState", "you/downloader/triesync.go:Downloader.commonSyncTrie",
     ],
     "level_text": "Coq theorems over all histories of any length (responses in any order and batching, duplicates, "
                   "unrequested and undecodable blobs, writers failing after k puts, restarts on the database as it is), "
@@ -55,7 +59,13 @@ SPEC = {
                   "whose hash is not pending and packets without an active request change nothing, unanswered tasks are queued "
                   "again (re-assignable after timeout/drop), the loop ends without error only with Pending()=0 and the deferred "
                   "commit(true) leaves an ordered-closed, complete database; fillTasks/process/commit run for real in a separate "
-                  "campaign class with scripted peers.",
+                  "campaign class with scripted peers. Launching (launchTrieSync -> trieFetcher -> run/loop -> done/Wait) is a "
+                  "state machine queued -> running -> done(err): done with err == nil only after a hand-over to the fetcher and "
+                  "a loop guard that found Pending()=0 (then the database holds the root's closure), never for a task interrupted "
+                  "while queued; a third campaign class drives the REAL launchTrieSync / trieFetcher goroutine / runTrieSync / "
+                  "loop / FetchVldTrie / fetchStakingTrie / syncState+Wait with stub peers through cancel-before/during-launch "
+                  "(fetcher idle or busy), cancel mid-sync, quit, new cycle + re-launch, with the oracle 'nil => whole trie "
+                  "readable locally'.",
     "level_note": "Trusted: Coq kernel + vm_compute; fidelity of the hand model rests on the differential check "
                   "(generator reach in evidence); Keccak and decodeNode are parameters of every theorem (the harness "
                   "supplies their finite tables per case); no axioms. Open finding: a raw entry (contract code) equal to "
@@ -75,6 +85,8 @@ SPEC = {
         "C19_caller_closed_holds_outside", "C19_caller_complete_holds_outside",
         "C19_nonvacuous_world", "C19_nonvacuous_interrupted", "C19_nonvacuous_wrong_data", "C19_nonvacuous_witness",
         "C19_nonvacuous_caller",
+        "C19_launch_done_only_after_loop", "C19_launch_not_done_without_handover", "C19_launch_interrupted_is_error",
+        "C19_launch_done_final", "C19_launch_refines", "C19_nonvacuous_launch",
     ],
     "cases": {"quick": 240, "thorough": 6000},
     "shard": 120,
@@ -108,6 +120,9 @@ SPEC = {
         "is modelled as the event alphabet of mstep and played by the harness, not executed; which eligible tasks a Go map "
         "iteration hands out and which of equal-priority entries Missing pops are taken from the observation and checked legal",
         "trieSync.commit writes through a database batch (atomic); the per-put prefix property is proved for Sync.Commit anyway",
+        "launch campaign: real goroutines and channels with stub peers; outcomes are compared with the projection (astep) of the "
+        "launch machine, proved to be its refinement (C19_launch_refines); racy cancelled-launch histories are repeated 3-12 "
+        "times per shard; fetchAcTrie / prepareForFullSync and the other callers of sync.done are not driven (they need a chain)",
     ],
     "modelled": ["trie.NewSync", "trie.Sync.AddSubTrie", "trie.Sync.AddRawEntry", "trie.Sync.Missing", "trie.Sync.Process",
                  "trie.Sync.Commit", "trie.Sync.Pending", "trie.Sync.schedule", "trie.Sync.children", "trie.Sync.commit",
